@@ -966,3 +966,32 @@ func cmpLowerBound(op token.Token, x, y ssa.Value, subject func(ssa.Value) bool)
 	}
 	return 0, false
 }
+
+// returnedValue resolves result i of r through the spill go/ssa inserts in
+// functions with defers (`*cell = v; rundefers; t = *cell; return t`): when
+// the result is a load of a local cell, the value last stored into that cell
+// in the same block is returned.
+func returnedValue(r *ssa.Return, i int) ssa.Value {
+	v := r.Results[i]
+	u, ok := v.(*ssa.UnOp)
+	if !ok || u.Op != token.MUL {
+		return v
+	}
+	al, ok := u.X.(*ssa.Alloc)
+	if !ok {
+		return v
+	}
+	var last ssa.Value
+	for _, ins := range r.Block().Instrs {
+		if ins == ssa.Instruction(u) {
+			break
+		}
+		if st, ok := ins.(*ssa.Store); ok && st.Addr == ssa.Value(al) {
+			last = st.Val
+		}
+	}
+	if last != nil {
+		return last
+	}
+	return v
+}
